@@ -74,6 +74,11 @@ pub struct Knobs {
     pub non_default_rent: bool,
     pub slots_per_epoch: u64,
     pub spacing_choices: Vec<u16>,
+    /// percentage of pools created from an adaptive fee tier
+    pub adaptive_pct: u64,
+    /// Rewards profile: tiny liquidity + huge emissions + year-long clock jumps, so that reward
+    /// growth accumulators reach the top bits / wrap by legitimate accrual
+    pub extreme_rewards: bool,
 }
 
 #[derive(Clone, Debug, Default)]
@@ -244,12 +249,19 @@ pub fn make_knobs(profile: Profile, rng: &mut Rng, thorough: bool) -> Knobs {
         non_default_rent: rng.chance(1, 5),
         slots_per_epoch: 432_000,
         spacing_choices: vec![1, 8, 64, 128, 32768],
+        adaptive_pct: 0,
+        extreme_rewards: false,
     };
     if let Some(kd) = FORCE_ARRAY_KIND.with(|c| c.get()) {
         k.array_kind = kd;
     }
     match profile {
-        Profile::Rewards | Profile::Adaptive => {
+        Profile::Rewards => {
+            k.extreme_rewards = rng.chance(1, 3);
+            if k.extreme_rewards {
+                k.liq_bits = *rng.pick(&[3u32, 5, 8]);
+                k.swap_bits = 12;
+            }
             k.clock_stall_pct = pct(rng, 5, 2, 10);
             k.clock_jump_pct = pct(rng, 6, 2, 10);
             k.clock_back_pct = pct(rng, 4, 1, 6);
@@ -258,7 +270,14 @@ pub fn make_knobs(profile: Profile, rng: &mut Rng, thorough: bool) -> Knobs {
             k.slots_per_epoch = *rng.pick(&[8u64, 20, 50, 432_000]);
             k.clock_jump_pct = pct(rng, 4, 2, 8);
         }
+        Profile::Adaptive => {
+            k.adaptive_pct = 100;
+            k.clock_stall_pct = pct(rng, 5, 2, 10);
+            k.clock_jump_pct = pct(rng, 6, 2, 10);
+            k.clock_back_pct = pct(rng, 4, 1, 6);
+        }
         Profile::TwoHop => {
+            k.adaptive_pct = *rng.pick(&[0u64, 0, 40, 100]);
             k.n_pools = 3;
             k.n_lps = 3;
             k.spacing_choices = vec![1, 8, 64, 64, 128, 32768];
@@ -396,7 +415,7 @@ impl Gen {
                 oracle: ix::pda_oracle(&whirlpool),
             };
             let price = pick_start_price(&mut rng, spacing);
-            let adaptive = knobs.profile == Profile::Adaptive;
+            let adaptive = knobs.adaptive_pct > 0 && rng.chance(knobs.adaptive_pct, 100);
             if adaptive {
                 let (tier_index, c) = crate::gen2::pick_adaptive_constants(&mut rng, spacing, p as u16);
                 let permissioned = rng.chance(1, 3);
@@ -438,7 +457,7 @@ impl Gen {
                     ..keys
                 };
                 let enable = if permissioned && rng.chance(1, 2) {
-                    Some((clock_base.unix_timestamp as u64) + rng.below(120))
+                    Some((clock_base.unix_timestamp as u64) + rng.below(240))
                 } else {
                     None
                 };
@@ -711,7 +730,8 @@ impl Gen {
             self.stats.hit("clock_stall");
         }
         if k.clock_jump_pct > 0 && self.rng.chance(k.clock_jump_pct, 100) {
-            let j: i64 = match self.rng.below(8) {
+            let sel = if self.knobs.extreme_rewards && self.rng.chance(1, 2) { 4 + self.rng.below(2) } else { self.rng.below(8) };
+            let j: i64 = match sel {
                 0 => 1,
                 1 => 59 + self.rng.below(3) as i64,
                 2 => 3599 + self.rng.below(3) as i64,
